@@ -2,6 +2,8 @@ SPECIFICATION SpecInst
 CONSTANTS
   Fams <- InstFams
   D_SwapDelete = TRUE
+  M_NamesComparedWhole = TRUE
+  NameW = 5
   Cap = 2
   M_DepthBuffersDisjoint = TRUE
   M_AllDocumentKindsFiltered = TRUE
